@@ -14,7 +14,10 @@ structural validation, and then judged three times:
   * the Lean model `Geff.TrackMate.convert` (through drv_C16) — must produce the same observation
     (node order, nx edge order, every property value/missing flag, metadata dtypes/units);
   * on malformed documents only the outcome class is compared with the model.
-lxml's iterparse cursor logic is exercised by this, not modelled (partial).
+The streaming layer (lxml's iterparse events, the cursor functions, the dispatch loop of _build_data, the
+metadata readers) is modelled in GeffModel/TrackMateXml.lean and tied by harness/corr/_c16_xml.py (element
+trees -> real event stream and real cursor functions, function by function; theorems GeffProps/C16Xml.lean,
+C16XmlDoc.lean).
 """
 from __future__ import annotations
 
@@ -967,7 +970,7 @@ def tag_of(case, o):
 
 
 def run(ck: common.Check):
-    ck.prove(["GeffProps.C16", "GeffProps.C16Links", "GeffProps.C16Cli"])
+    ck.prove(["GeffProps.C16", "GeffProps.C16Links", "GeffProps.C16Cli", "GeffProps.C16Xml", "GeffProps.C16XmlDoc"])
     drv = ck.driver()
     if os.path.isdir("/dev/shm") and os.access("/dev/shm", os.W_OK):
         tempfile.tempdir = "/dev/shm"           # conversions write hundreds of small zarr files
@@ -1069,19 +1072,28 @@ def run(ck: common.Check):
             ck.corr_broken(f"C16:Geff.TrackMate.convert vs from_trackmate_xml_to_geff: {detail}", c,
                            {k: o.get(k) for k in ("exc", "msg", "unreadable", "nodes", "edges") if k in o},
                            answers[i] if "exc" in answers[i] else "see model")
+    # ---- the XML layer (iterparse events, cursor functions, _build_data on unusual documents): harness/corr/_c16_xml.py
+    from harness.corr import _c16_xml
+
+    _c16_xml.run_streams(ck, drv, common, random_doc, common.VERIF / "harness" / "corpus" / PROP)
     ck.extra["model_comparisons"] = n_model
     ck.extra["s_oracle_evaluations"] = n_spec
     ck.extra["hypotheses_of_theorems_on_generated_documents"] = wf_hist
     ck.extra["unmodelled_outcomes_skipped"] = n_unmodelled
     ck.extra["explanation"] = (
-        "PARTIAL for XML parsing: the theorems are about Geff.TrackMate.convert on abstract documents (graph construction, "
-        "typing by isint, TRACK_ID stamping with its assertion, the two discard rules, metadata consistency, property columns "
-        "with missing flags, lineage validity); lxml's streaming iterparse cursor logic, Python's int()/float() lexing and the "
-        "zarr write/read are exercised by the correspondence on rendered documents (and the repo's FakeTracks.xml converted "
-        "as it is), not modelled. Declared-but-valueless features are not stored (nothing to store).")
+        "The theorems are about Geff.TrackMate.convert on abstract documents (graph construction, typing by isint, TRACK_ID "
+        "stamping with its assertion, the two discard rules, metadata consistency, property columns with missing flags, lineage "
+        "validity) and about the streaming layer on element trees (GeffProps.C16Xml: every cursor function on lxml's event "
+        "stream computes the tree-level value and consumes exactly its section; _build_data = a walk over the tree; frame "
+        "theorem; GeffProps.C16XmlDoc: for files in standard layout _build_data on the event stream = the abstract buildData "
+        "on docOfTree, so the end-to-end statements start at the XML tree). PARTIAL for what lies beneath: lxml's parser and "
+        "chunked event delivery, Python's int()/float() lexing (a parameter of the model) and the zarr write/read are "
+        "exercised by the correspondence (rendered documents and trees, the repo's FakeTracks.xml converted as it is), not "
+        "modelled. Declared-but-valueless features are not stored (nothing to store).")
     ck.assumptions += [
-        "lxml iterparse event/cursor handling (_get_attributes_metadata, _get_filtered_tracks_ID, …) is exercised through "
-        "rendered documents, not modelled: partial",
+        "lxml's parser is taken as given: its event stream is compared with the model's `events` on every generated tree "
+        "(comments, processing instructions, tail text yield no event); element.clear() is not represented because every "
+        "read of attrib/text happens on the event being handled before the clear (tie: the real cursor functions are called)",
         "Python int()/float() classify attribute texts (the lexer of the abstract document); float values are compared as "
         "float(text) bit patterns, NaN == NaN",
         "NxBackend.write/write_arrays/zarr/read_to_memory are used as given (C01/C03); the model stops at the property "
@@ -1093,6 +1105,13 @@ def run(ck: common.Check):
 
 def replay(rp):
     c = rp["case"]
+    if "xml_case" in c or "xml_chunk_case" in c:
+        from harness.corr import _c16_xml
+
+        text, failed = _c16_xml.replay_case(c)
+        print(text)
+        print("REPLAY: property FAILS on this input" if failed else "REPLAY: property holds on this input")
+        return 1 if failed else 0
     if os.path.isdir("/dev/shm") and os.access("/dev/shm", os.W_OK):
         tempfile.tempdir = "/dev/shm"
     o = observe(c)
